@@ -130,3 +130,19 @@ func WriteTrace(w io.Writer, c *Case, obs []string) {
 	}
 	fmt.Fprintln(w, "end")
 }
+
+func checksum(b []byte) uint64 {
+	var h uint64 = 2166136261
+	for _, x := range b {
+		h = (h ^ uint64(x)) * 16777619 % 1000000007
+	}
+	return h
+}
+
+// short byte strings in hex, long ones as length:checksum
+func bytesRepr(b []byte) string {
+	if len(b) <= 256 {
+		return hexs(b)
+	}
+	return fmt.Sprintf("h%d:%d", len(b), checksum(b))
+}
